@@ -427,6 +427,34 @@ class Unit:
                 item["ret"] = arg.strip()
             elif name == "rettype":
                 item["rettype"] = full
+            elif name == "reuse":
+                # @reuse <unit> <item name> : the item of another unit with its whole contract; in THIS unit only its safety and
+                # termination obligations are owned, every other clause merely supports them (failure => inconclusive here)
+                ou = arg.split()[0]
+                nm = re.findall(r'"([^"]*)"', arg)[0] if '"' in arg else arg.split()[1]
+                other = Unit(os.path.join(os.path.dirname(self.path), ou + ".vspec"))
+                cands = [i for i in other.items if i.get("name") == nm]
+                if len(cands) != 1:
+                    raise Inconclusive(f"sidecar {where}: @reuse {nm}: {len(cands)} items in unit {ou}")
+                import copy
+                it2 = copy.copy(cands[0])
+                it2["opts"] = [o for o in it2.get("opts", []) if not o.startswith("only=")]
+
+                def retag(c, own_kinds=("decreases",)):
+                    if c.kind in own_kinds:
+                        return Clause(c.kind, c.id, list(self.props), [], c.text, c.where)
+                    return Clause(c.kind, c.id, [], list(self.props), c.text, c.where)
+                if it2["kind"] == "fn":
+                    it2["clauses"] = [retag(c) for c in it2["clauses"]]
+                    it2["loops"] = {k: dict(v, clauses=[retag(c) for c in v["clauses"]]) for k, v in it2["loops"].items()}
+                    it2["ats"] = [(a, retag(c)) for a, c in it2["ats"]]
+                    it2["arounds"] = [(a, b, retag(c)) for a, b, c in it2["arounds"]]
+                    if it2["safety"] is not None:
+                        it2["safety"] = Clause("safety", it2["safety"].id, list(self.props), [], "", it2["safety"].where)
+                self.items.append(it2)
+                item = None
+                loop = None
+                sub = None
             elif name == "importfn":
                 # @importfn <unit> <rel> <fn path> : contract proved in another unit, reused here as external_body
                 ou, rel, nm = arg.split()[:3]
